@@ -244,7 +244,7 @@ def rule_pred(ctx: Ctx, S: Search):
         ctx.check(ok, "PRED-2", cp, sto[0], "policy[s] = a for (s, a) = camefrom[ns]", "", "policy maps the wrong component of the predecessor pair")
     else:
         # (tightened after seed C05-b) a policy entry whose action is not read from the predecessor map at all is definitely not the recorded action
-        cf = cp.positional_params[0] if cp.positional_params else "camefrom"
+        cf = cp.positional_params[1] if len(cp.positional_params) > 1 else "camefrom"
         anysto = [n for n in ast.walk(cp.node) if isinstance(n, ast.Assign) and isinstance(n.targets[0], ast.Subscript)]
         uses_map = any(isinstance(x, ast.Name) and x.id == cf for x in ast.walk(cp.node))
         if anysto and not uses_map:
